@@ -1,6 +1,7 @@
 package c05
 
 import (
+	"strings"
 	"testing"
 
 	"verif/harness/pbt"
@@ -10,14 +11,42 @@ import (
 func TestProp(t *testing.T) {
 	r := pbt.Start(t, "C05")
 	defer r.Finish()
-	r.Rule("bytes: token-biased byte strings, non-trivial when the input lexes to >=3 tokens; docs: grammar-generated documents, non-trivial when the document parses and has >=5 nodes of >=3 kinds; distinct by input text")
+	r.Rule("bytes-total: token-biased byte strings (token soup, damaged grammar-generated documents, damaged hostile constants), non-trivial when the input lexes to >=3 tokens; " +
+		"docs-roundtrip / limits: grammar-generated documents, non-trivial when the document has >=5 nodes of >=3 kinds; distinct by input text (limits: text + limits)")
+	r.Assume(
+		"gqlparser v2.5.30's reading of a grammar-generated source is trusted as the second opinion on the generator (disagreements are dropped and counted, inconclusive above 5 %)",
+		"shape compares block strings by BlockStringValue() (own implementation) and regular strings by raw content; positions are ignored",
+		"selection depth = nesting of selection sets inside one operation/fragment definition; field count = field nodes of the whole document",
+		"inputs up to 64 KiB; value/selection nesting far below the stack-exhaustion range (stated bound of DESIGN §4 C05)",
+	)
+	r.RequireLabel("bytes:accepted", "bytes:accepted-with->=5-nodes-of->=3-kinds", "docs:differential", "docs:kind:exec", "docs:kind:schema",
+		"limits:over-depth", "limits:over-fields", "limits:within")
 	r.Regress(dispatch())
 	r.RunProbes(probes())
 	bytesPart.Run(r)
+	docsPart.Run(r)
+	limitsPart.Run(r)
+
+	// oracle disagreement bound (DESIGN §3.4): dropped cases above 5 % of the differential
+	// cases make the run inconclusive (the shard fails without a recorded violation).
+	checked, dropped := docsChecked.Load(), docsDiscarded.Load()
+	r.Extra("docs_differential_cases", checked)
+	r.Extra("docs_oracle_disagreements_dropped", dropped)
+	if checked >= 400 && dropped*20 > checked {
+		t.Errorf("INCONCLUSIVE: %d of %d differential cases dropped as generator/gqlparser disagreement (> 5 %%): fix the generator", dropped, checked)
+	}
+	if um := unmappedList(); len(um) > 0 {
+		r.Extra("bounds_unmapped_int_slices", strings.Join(um, ","))
+	}
 }
 
 func TestReplay(t *testing.T) { pbt.StdReplay(t, "C05", dispatch()) }
 
 func dispatch() pbt.Dispatch {
-	return pbt.Dispatch{}.Add(bytesPart.Name, bytesPart.Handler()).WithProbes(probes())
+	return pbt.Dispatch{}.
+		Add(bytesPart.Name, bytesPart.Handler()).
+		Add(docsPart.Name, docsPart.Handler()).
+		Add(limitsPart.Name, limitsPart.Handler()).
+		Add("fuzz:FuzzParse", fuzzReplay).
+		WithProbes(probes())
 }
